@@ -134,8 +134,14 @@ class RepoMaterial:
             return lst[0]
         return []
 
+    # text that reads like a value of another type (a server-side decoder must
+    # not turn a string parameter into a boolean, number or NULL)
+    LOOKALIKES = ['true', 'FALSE', 'TRUE', 'False', '0', '1', 'null', 'NULL',
+                  '123', '-1', '1.5', 'INF', '20200101000000.000000+000', '']
+
     def role(self):
-        return self.rng.choice([None, None, 'Left', 'Right', 'left', 'NoRole'])
+        return self.rng.choice([None, None, 'Left', 'Right', 'left', 'NoRole',
+                                self.rng.choice(self.LOOKALIKES)])
 
     def assoc_class(self):
         return self.rng.choice([None, None, 'VF_Link', CIMClassName('VF_Link'),
@@ -148,7 +154,8 @@ class RepoMaterial:
     def query(self):
         return self.rng.choice(['select * from VF_Other',
                                 'SELECT Id FROM VF_Base WHERE Id = "id1"',
-                                cimgen.string(self.rng)])
+                                cimgen.string(self.rng),
+                                self.rng.choice(self.LOOKALIKES)])
 
     def qlang(self):
         return self.rng.choice(['DMTF:CQL', 'WQL', 'DMTF:FQL'])
@@ -230,7 +237,8 @@ class RepoMaterial:
 
     def qualifier_name(self):
         return self.rng.choice(['Key', 'Description', 'MaxLen', 'NoSuchQual',
-                                'key', 'VFQ'])
+                                'key', 'VFQ',
+                                self.rng.choice(self.LOOKALIKES) or 'x'])
 
     def qualifier_decl(self):
         qd = cimgen.qualifier_declaration(self.rng, self.rng.choice(
